@@ -619,6 +619,21 @@ func (env *SpecEnv) call(x ECall) SpecVal {
 			env.fail("store(%s, %s, %s) ill-sorted", a.Sort, i.Sort, v.Sort)
 		}
 		return SpecVal{"(store " + a.T + " " + i.T + " " + v.T + ")", a.Sort, a.Go}
+	case "cast":
+		v := env.tr(x.Args[0])
+		ts, ok := x.Args[1].(EStr)
+		if !ok || v.Sort != "Iface" {
+			env.fail("cast(iface, \"type\")")
+		}
+		tsort, gt := env.resolveSort(ts.V)
+		if gt == nil {
+			env.fail("cast: unknown type %s", ts.V)
+		}
+		if tsort == "Int" && !isIntType(gt) {
+			return SpecVal{"(if.ref " + v.T + ")", "Int", gt}
+		}
+		_, unbox := g.boxFns(tsort)
+		return SpecVal{"(" + unbox + " (if.ref " + v.T + "))", tsort, gt}
 	case "typeof":
 		v := env.tr(x.Args[0])
 		if v.Sort != "Iface" {
